@@ -129,6 +129,31 @@ Proof.
   rewrite (choice_commit (pev n) es1 e es2 f Hf He). reflexivity.
 Qed.
 
+(* ---- left / right joins (op<{e}+ , op>{e}+) ---- *)
+Theorem peval_assoc n lft e f :
+  peval' (S n) (Assoc lft e) f =
+    match peval' n e (push f) with
+    | Ok r f1 => let v := (if lft then left_assoc else right_assoc) (list_items r) in
+                 Ok v (merge f (set_cst f1 v))
+    | Fail _ => Fail (cutseen f)
+    | Fatal x => Fatal x
+    end.
+Proof.
+  unfold peval. rewrite geval_S. destruct (pev n e (push f) tt) as [[v f1|c|x] []]; reflexivity.
+Qed.
+
+(* the tree is ONE contribution merged into what the sequence had collected: nothing collected before the join is lost,
+   and the position is where the flat join ended *)
+Theorem peval_assoc_keeps_collected n lft e f v f' :
+  peval' (S n) (Assoc lft e) f = Ok v f' ->
+  exists r f1, peval' n e (push f) = Ok r f1 /\
+    v = (if lft then left_assoc else right_assoc) (list_items r) /\
+    cst f' = cstmerge (cst f) v /\ pos f' = pos f1 /\ fast f' = fast f1 /\ cutseen f' = cutseen f /\ last f' = v.
+Proof.
+  rewrite peval_assoc. destruct (peval' n e (push f)) as [r f1|c|x]; try discriminate.
+  intros E. inversion E; subst. exists r, f1. cbn. repeat split; reflexivity.
+Qed.
+
 (* ---- optional ---- *)
 Theorem peval_optional n e f :
   peval' (S n) (Opt e) f =
@@ -286,14 +311,14 @@ Proof. intros H. cbn [repeat_go]. rewrite H. reflexivity. Qed.
 
 (* ---- C05: containment - these constructs never leak a cut to their caller ---- *)
 Theorem peval_contained n e f :
-  (match e with Call _ | Choice _ | Opt _ | Rep _ _ _ _ | Look _ _ | SkipGroup _ => True | _ => False end) ->
+  (match e with Call _ | Choice _ | Opt _ | Rep _ _ _ _ | Look _ _ | SkipGroup _ | Assoc _ _ => True | _ => False end) ->
   match peval' (S n) e f with
   | Ok _ f' => cutseen f' = cutseen f
   | Fail c => c = cutseen f
   | Fatal _ => True
   end.
 Proof.
-  intros He. destruct e as [l|es|es|e1|e1|e1|plus sep omitsep e1|neg e1|e1|r|il nm e1|il e1]; try contradiction.
+  intros He. destruct e as [l|es|es|e1|e1|e1|plus sep omitsep e1|neg e1|e1|lft e1|r|il nm e1|il e1]; try contradiction.
   - (* Choice *)
     unfold peval. rewrite geval_S. destruct (choice_go unsafe (pev n) es f tt) as [[v f'|c|x] []] eqn:E; cbn [fst].
     + eapply choice_contained; exact E.
@@ -310,6 +335,8 @@ Proof.
         as [[v f1|[|]|x] []]; cbn; auto.
   - (* Look *)
     unfold peval. rewrite geval_S. destruct neg; destruct (pev n e1 (push f) tt) as [[v f1|c|x] []]; cbn; auto.
+  - (* Assoc *)
+    rewrite peval_assoc. destruct (peval' n e1 (push f)) as [v f1|c|x]; cbn; auto.
   - (* Call *)
     destruct (peval' (S n) (Call r) f) as [v f'|c|x] eqn:E; [|eapply peval_call_contains_cut; exact E|exact I].
     destruct (peval_call_one_element _ _ _ _ _ E) as [np [_ [Hc _]]]. exact Hc.
